@@ -251,6 +251,7 @@ func vBez3(p0, p1, p2, p3, t Fl) Fl {
 //@   requires c != nil && len(points) >= 7
 //@   modifies c.path, c.path[..], c.currentX, c.currentY, points[..]
 //@   ensures[ends-at-given-point] c.currentX == old(points[5]) && c.currentY == old(points[6])
+//@   call addArc#1 assert[radii-scaled-up-with-the-centre] arg1[0] == Fl(ra) && arg1[1] == Fl(rb) && arg2 == Fl(first(callresult(findEllipseCenter, 1))) && arg3 == Fl(second(callresult(findEllipseCenter, 1)))
 //@   ensures fresh(c.path) || samebase(c.path, old(c.path))
 
 //@ func errParamMismatch
